@@ -245,21 +245,46 @@ def build(tier, seed):
         ("repeated-validate-nonadjacent", "validate(greater = 5), sanitize(with = |x| x), derive(Debug), validate(less = 3)", [("greater", 5), ("less", 3)]),
         ("repeated-validate-nonadjacent", "validate(greater = 5), default = 7, validate(less = 3), derive(Debug, Default)", [("greater", 5), ("less", 3)]),
         ("repeated-validate-nonadjacent", "derive(Debug), validate(greater = 5), const_fn, validate(less = 3)", [("greater", 5), ("less", 3)]),
-        ("repeated-sanitize-nonadjacent", "sanitize(with = |x| x + 1), derive(Debug), sanitize(with = |x| x * 2)", None),
-        ("repeated-sanitize-nonadjacent", "sanitize(with = |x| x + 1), validate(less = 1000), sanitize(with = |x| x * 2), derive(Debug)", "san+less1000"),
+        ("repeated-sanitize-nonadjacent", "sanitize(with = |x| x.wrapping_add(1)), derive(Debug), sanitize(with = |x| x.wrapping_mul(2))", None),
+        ("repeated-sanitize-nonadjacent", "sanitize(with = |x| x.wrapping_add(1)), validate(less = 1000), sanitize(with = |x| x.wrapping_mul(2)), derive(Debug)", "san+less1000"),
         ("repeated-validate", "validate(greater = 5), validate(less = 3)", [("greater", 5), ("less", 3)]),
         ("repeated-validate-same-kind", "validate(greater = 5), validate(greater = 1)", [("greater", 5), ("greater", 1)]),
         ("repeated-validate-split", "validate(greater = 5), derive(Debug), validate(less = 30)", [("greater", 5), ("less", 30)]),
-        ("repeated-sanitize", "sanitize(with = |x| x + 1), sanitize(with = |x| x * 2)", None),
+        ("repeated-sanitize", "sanitize(with = |x| x.wrapping_add(1)), sanitize(with = |x| x.wrapping_mul(2))", None),
         ("repeated-derive", "derive(Debug), derive(Clone)", []),
         ("repeated-default", "derive(Debug, Default), default = 1, default = 2", []),
     ]
+    # every order of one repeated rule-bearing block with at least one other block in between (and any further blocks anywhere)
+    for B in ("sanitize", "validate"):
+        if B == "sanitize":
+            b1, b2 = "sanitize(with = |x| x.wrapping_add(1))", "sanitize(with = |x| x.wrapping_mul(2))"
+            others = {"V": "validate(less = 1000)", "D": "derive(Debug)", "F": "default = 7"}
+        else:
+            b1, b2 = "validate(greater = 5)", "validate(less = 3)"
+            others = {"S": "sanitize(with = |x| x)", "D": "derive(Debug)", "F": "default = 7"}
+        for k in (1, 2, 3):
+            for sub in itertools.combinations(sorted(others), k):
+                if "F" in sub and "D" not in sub:
+                    continue
+                for perm in itertools.permutations(("1", "2") + sub):
+                    i1, i2 = perm.index("1"), perm.index("2")
+                    if not (i1 + 1 < i2):
+                        continue
+                    txt = {"1": b1, "2": b2}
+                    txt.update(others)
+                    if "F" in sub:
+                        txt["D"] = "derive(Debug, Default)"
+                    attrs = ", ".join(txt[x] for x in perm)
+                    if B == "sanitize":
+                        rep.append(("repeated-sanitize-nonadjacent", attrs, "san+less1000" if "V" in sub else None))
+                    else:
+                        rep.append(("repeated-validate-nonadjacent", attrs, [("greater", 5), ("less", 3)]))
     for cls, attrs, rules in rep:
         d = new(inner_int("i32"), "layout:" + cls)
         d.attr_override = attrs
         if rules is None or rules == "san+less1000":
             # both sanitizers written: the honest reading applies both, in order
-            add_with_sanitizer(d, "(x + 1) * 2", "path")
+            add_with_sanitizer(d, "x.wrapping_add(1).wrapping_mul(2)", "path")
             d.sans[-1].arg = "UNUSED"
             if rules == "san+less1000":
                 d.vals = [Vld("less", "1000", 1000)]
